@@ -1,6 +1,6 @@
 CONSTANTS
  Args = {1,2,3,4,5,6,7,8,9,10,11,12,13,14,15,16,17,18,19,20,21,22,23,24,25,26,27,28,29,30,31}
- SrcNs = {1, 2}
+ SrcNs = {1, 2, 3, 4, 5}
  Aggs = {"none", "max"}
  Flags = {0, 1, 2}
  Fields = {"B"}
@@ -9,5 +9,6 @@ INVARIANT WrapIsNeutral
 INVARIANT StackIsOne
 INVARIANT CollIsItsSensors
 INVARIANT AdmittedRule
+INVARIANT SourcesRule
 INVARIANT ObsRefines
 CHECK_DEADLOCK FALSE
